@@ -13,7 +13,7 @@ import (
 // is interpreted, not modelled. Pass-through classes are returned unchanged;
 // every other result is absolute, stays on the right host and is a fixed point.
 func HarnessC06AbsURL() {
-	heads := []string{"", "#", "?", "/", "//c.t/", "../", "./", "data:", "javascript:", "http://o.t/", "https://o.t", "%zz", "mailto:", "a b", "HTTP://O.T/"}
+	heads := []string{"", "#", "?", "/", "//c.t/", "../", "./", "data:", "javascript:", "http://o.t/", "https://o.t", "%zz", "mailto:", "a b", "HTTP://O.T/", "p?u=http://o.t/", "/w/http://o.t/"}
 	hi := vx.Choose("head", len(heads))
 	head := heads[hi]
 	tail := vx.NondetStringIn("tail", vx.Param("tail", 3), "ab/.?#=:")
